@@ -7,6 +7,7 @@ import (
 	"hash/fnv"
 	"runtime"
 	"strings"
+	"time"
 
 	"github.com/tetratelabs/wazero"
 	"github.com/tetratelabs/wazero/api"
@@ -109,6 +110,7 @@ type worldKey struct{}
 
 type engineRT struct {
 	name string
+	term bool // runtime configured WithCloseOnContextDone(true)
 	ctx  context.Context
 	rt   wazero.Runtime
 	cA   wazero.CompiledModule
@@ -122,7 +124,7 @@ var (
 	binCs = [4][]byte{buildStarter("A", true), buildStarter("B", true), buildStarter("A", false), buildStarter("B", false)}
 )
 
-func newEngineRT(name string) *engineRT {
+func newEngineRT(name string, term bool) *engineRT {
 	ctx := context.Background()
 	var cfg wazero.RuntimeConfig
 	if name == "compiler" {
@@ -131,7 +133,10 @@ func newEngineRT(name string) *engineRT {
 		cfg = wazero.NewRuntimeConfigInterpreter()
 	}
 	cfg = cfg.WithCoreFeatures(api.CoreFeaturesV2 | experimental.CoreFeaturesThreads)
-	e := &engineRT{name: name, ctx: ctx, rt: wazero.NewRuntimeWithConfig(ctx, cfg)}
+	if term {
+		cfg = cfg.WithCloseOnContextDone(true)
+	}
+	e := &engineRT{name: name, term: term, ctx: ctx, rt: wazero.NewRuntimeWithConfig(ctx, cfg)}
 	if _, err := wasi_snapshot_preview1.Instantiate(ctx, e.rt); err != nil {
 		fw.Fatalf("wasi: %v", err)
 	}
@@ -248,7 +253,9 @@ func hostReenter(ctx context.Context, mod api.Module, stack []uint64) {
 
 type world struct {
 	e    *engineRT
-	ctx  context.Context
+	ctx  context.Context // carries the world; used for instantiating / closing A and B
+	cur  context.Context // the context the next step is called with (== ctx unless a context variant is explored)
+	base int             // runtime.NumGoroutine() when the world was created (settle)
 	A, B api.Module
 	fn   [6]api.Function // the function objects reused across the whole word
 }
@@ -265,6 +272,8 @@ const (
 func newWorld(e *engineRT) *world {
 	w := &world{e: e}
 	w.ctx = context.WithValue(e.ctx, worldKey{}, w)
+	w.cur = w.ctx
+	w.base = runtime.NumGoroutine()
 	var err error
 	w.B, err = e.rt.InstantiateModule(w.ctx, e.cB, wazero.NewModuleConfig().WithName("B").WithStartFunctions())
 	if err != nil {
@@ -382,18 +391,18 @@ func (w *world) step(l letter, k uint32) (string, uint32) {
 	var err error
 	switch l.Shape {
 	case ShDirectA:
-		res, err = w.fn[fADirect].Call(w.ctx, kind, uint64(k))
+		res, err = w.fn[fADirect].Call(w.cur, kind, uint64(k))
 	case ShDirectB:
-		res, err = w.fn[fBDirect].Call(w.ctx, kind, uint64(k))
+		res, err = w.fn[fBDirect].Call(w.cur, kind, uint64(k))
 	case ShViaB:
-		res, err = w.fn[fAViaB].Call(w.ctx, kind, uint64(k))
+		res, err = w.fn[fAViaB].Call(w.cur, kind, uint64(k))
 	case ShIndirectA:
-		res, err = w.fn[fAIndirect].Call(w.ctx, kind, uint64(k))
+		res, err = w.fn[fAIndirect].Call(w.cur, kind, uint64(k))
 	case ShIndirectB:
-		res, err = w.fn[fBIndirect].Call(w.ctx, kind, uint64(k))
+		res, err = w.fn[fBIndirect].Call(w.cur, kind, uint64(k))
 	case ShHost1P, ShHost2P, ShHost5P, ShHost1C, ShHost5CI, ShHost5CO, ShHost1PB, ShHost1CB:
 		d, m, t := hostArgs(l.Shape)
-		res, err = w.fn[fAViaHost].Call(w.ctx, uint64(d), uint64(m), uint64(t), kind, uint64(k))
+		res, err = w.fn[fAViaHost].Call(w.cur, uint64(d), uint64(m), uint64(t), kind, uint64(k))
 	case ShStartSecA, ShStartSecB, ShStartFnA, ShStartFnB:
 		t := w.A
 		if shapes[l.Shape].target == 'B' {
@@ -406,9 +415,9 @@ func (w *world) step(l letter, k uint32) (string, uint32) {
 			cfg = cfg.WithStartFunctions()
 		}
 		var mod api.Module
-		mod, err = w.e.rt.InstantiateModule(w.ctx, w.e.cC[l.Shape-ShStartSecA], cfg)
+		mod, err = w.e.rt.InstantiateModule(w.cur, w.e.cC[l.Shape-ShStartSecA], cfg)
 		if mod != nil {
-			mod.Close(w.ctx)
+			mod.Close(w.cur)
 		}
 	}
 	cl := classify(err)
@@ -416,6 +425,25 @@ func (w *world) step(l letter, k uint32) (string, uint32) {
 		return cl, uint32(res[0])
 	}
 	return cl, 0
+}
+
+// settle gives context watchers the chance to act: it yields until the number of goroutines is back to
+// what it was when the world was created (a stopped watcher exits at once; a watcher that is still
+// alive after its call has returned is either about to exit or leaked), for at most ~50 ms. It is a
+// wait, never a verdict: verdicts come from the comparison with the model afterwards.
+func (w *world) settle() {
+	for i := 0; i < 200; i++ {
+		if runtime.NumGoroutine() <= w.base {
+			return
+		}
+		runtime.Gosched()
+	}
+	for t0 := time.Now(); time.Since(t0) < 50*time.Millisecond; {
+		if runtime.NumGoroutine() <= w.base {
+			return
+		}
+		time.Sleep(200 * time.Microsecond)
+	}
 }
 
 // observe renders the externally visible state of one instance.
